@@ -320,13 +320,12 @@ theorem wstep_abs (p : Proto C S D) (k : Win) (hk : k.mode = .onConsume) (s : WS
         obtain ⟨m, d⟩ := md
         obtain ⟨a, b, c⟩ := Dir.noLoss_take k.rwS w.c2s d m hi1 ht
         have hne : w.c2s.inq ≠ [] := by rw [b]; simp
-        simp only [wstep, hk, ht, appTrace, hne, if_false, List.append_nil, List.singleton_append, runSched,
-          stepW]
+        simp only [wstep, hk, ht, appTrace, hne, if_false, List.append_nil, runSched, stepW]
         by_cases hw : p.swait w.sst = true
         · simp only [hw, if_true]
           refine ⟨⟨a, Dir.noLoss_out _ _ _ hi2⟩, ?_⟩
           simp [WNet.abs, stepS, b, c, hw, List.append_assoc]
-        · simp only [hw, if_false]
+        · simp only [hw]
           refine ⟨⟨a, hi2⟩, ?_⟩
           simp [WNet.abs, stepS, b, c, hw]
     · -- the client application
@@ -340,8 +339,7 @@ theorem wstep_abs (p : Proto C S D) (k : Win) (hk : k.mode = .onConsume) (s : WS
           obtain ⟨m, d⟩ := md
           obtain ⟨a, b, c⟩ := Dir.noLoss_take k.rwC w.s2c d m hi2 ht
           have hne : w.s2c.inq ≠ [] := by rw [b]; simp
-          simp only [wstep, hk, hw, if_true, ht, appTrace, hne, if_false, List.append_nil,
-            List.singleton_append, runSched, stepW]
+          simp only [wstep, hk, hw, if_true, ht, appTrace, hne, if_false, List.append_nil, runSched, stepW]
           refine ⟨⟨Dir.noLoss_out _ _ _ hi1, a⟩, ?_⟩
           simp [WNet.abs, stepC, b, c, hw, List.append_assoc]
       · have hw' : p.cwait w.cst = false := by simpa using hw
